@@ -29,6 +29,8 @@ func main() {
 
 	var rows []string
 	var vcRows, vmRows []string // validate_calls, validate_methods
+	var mentionRows []string    // (struct, field) for every `<receiver>.<Field>` a validate method of that struct reads
+	mentioned := map[string]bool{}
 	nvalidate := 0
 	for _, sub := range []string{"internal/config", "internal/checks"} {
 		p := loadPkg(filepath.Join(*srcDir, sub))
@@ -62,6 +64,36 @@ func main() {
 				}
 				if isValidate && recv != "" && sub == "internal/config" {
 					vmRows = append(vmRows, cs(recv))
+					// fields of the receiver read by validate itself or by a method of the same type it calls (one level:
+					// `p.getSchema()` reads p.Schema)
+					var scan func(body *ast.BlockStmt, rn string, depth int)
+					scan = func(body *ast.BlockStmt, rn string, depth int) {
+						ast.Inspect(body, func(n ast.Node) bool {
+							se, ok := n.(*ast.SelectorExpr)
+							if !ok {
+								return true
+							}
+							id, ok := se.X.(*ast.Ident)
+							if !ok || id.Name != rn || rn == "" {
+								return true
+							}
+							if m := findFunc(p, recv, se.Sel.Name); m != nil && m.Body != nil && depth == 0 && m != fd {
+								mr := ""
+								if m.Recv != nil && len(m.Recv.List) == 1 && len(m.Recv.List[0].Names) == 1 {
+									mr = m.Recv.List[0].Names[0].Name
+								}
+								scan(m.Body, mr, depth+1)
+								return true
+							}
+							k := recv + "." + se.Sel.Name
+							if !mentioned[k] {
+								mentioned[k] = true
+								mentionRows = append(mentionRows, fmt.Sprintf("(%s, %s)", cs(recv), cs(se.Sel.Name)))
+							}
+							return true
+						})
+					}
+					scan(fd.Body, recvName, 0)
 				}
 				rangeVars := map[string]string{}
 				// calls of the shape `if err[:]= CALL; err != nil { ...; return ... }`: the error of CALL rejects the configuration
@@ -162,7 +194,7 @@ func main() {
 	// the configuration schema: every `hcl:"<name>,block"` field of a struct of internal/config, with its element type
 	{
 		p := loadPkg(filepath.Join(*srcDir, "internal/config"))
-		var cb []string
+		var cb, attrs []string
 		for _, fn := range p.names {
 			for _, d := range p.files[fn].Decls {
 				gd, ok := d.(*ast.GenDecl)
@@ -188,6 +220,14 @@ func main() {
 						h = h[:strings.Index(h, `"`)]
 						parts := strings.Split(h, ",")
 						if len(parts) != 2 || parts[1] != "block" {
+							// an attribute (optional / required / label / remain): name and Go type
+							kind := "attr"
+							if len(parts) == 2 {
+								kind = parts[1]
+							}
+							for _, nm := range f.Names {
+								attrs = append(attrs, fmt.Sprintf("{| ca_struct := %s; ca_field := %s; ca_hcl := %s; ca_kind := %s; ca_type := %s |}", cs(ts.Name.Name), cs(nm.Name), cs(parts[0]), cs(kind), cs(oneLine(src(f.Type)))))
+							}
 							continue
 						}
 						if len(f.Names) != 1 {
@@ -222,6 +262,9 @@ func main() {
 		o.b.WriteString("Record validate_call := { vc_func : string; vc_owner : string; vc_field : string; vc_error_returned : bool }.\n\n")
 		o.def("validate_calls", "list validate_call", "[\n   "+strings.Join(vcRows, ";\n   ")+"\n  ]")
 		o.def("validate_methods", "list string", "["+strings.Join(vmRows, "; ")+"]")
+		o.b.WriteString("Record config_attr := { ca_struct : string; ca_field : string; ca_hcl : string; ca_kind : string; ca_type : string }.\n\n")
+		o.def("config_attrs", "list config_attr", "[\n   "+strings.Join(attrs, ";\n   ")+"\n  ]")
+		o.def("validate_mentions", "list (string * string)", "[\n   "+strings.Join(mentionRows, ";\n   ")+"\n  ]")
 	}
 
 	// cmd/pint sites (same detection as core genDropped)
